@@ -120,6 +120,11 @@ func Changes(cmd CommandRunner, baseBranch string, filter PathFilter) ([]*FileCh
 		}
 
 		prev := getChangeByPath(changes, srcPath)
+		if status == FileCopied {
+			// A copy leaves its source in place: the source keeps its own change record and
+			// the new file starts a record of its own.
+			prev = nil
+		}
 		slog.Debug("Looking for previous changes",
 			slog.String("src", srcPath),
 			slog.String("dst", dstPath),
